@@ -409,6 +409,8 @@ pub fn run(tier: Tier) -> i32 {
             if oa != ob {
                 let what = if oa.conn != ob.conn || oa.dims != ob.dims {
                     "connection table"
+                } else if oa.chars != ob.chars {
+                    "character table"
                 } else {
                     "tokens"
                 };
